@@ -114,6 +114,10 @@ func c07Case(w *core.Worker, i int) {
 	r := w.Rng(i, "")
 	big := i%8 == 7
 	n := pickSize(r, big)
+	if r.P(15) {
+		// row counts and percentages whose product is an exact integer only when multiplied before dividing
+		n = []int{25, 50, 75, 100, 200}[r.Intn(5)]
+	}
 	cpu := 1
 	if big {
 		cpu = r.Range(2, 8)
@@ -312,7 +316,7 @@ func c07Case(w *core.Worker, i int) {
 		off     string
 	}
 	bnd := []int{0, 1, 2, n / 2, n - 1, n, n + 1, n + 7, -1, -5}
-	pcs := []string{"0", "0.1", "10", "33.3", "50", "99.9", "100", "150", "-5"}
+	pcs := []string{"0", "0.1", "10", "33.3", "50", "99.9", "100", "150", "-5", "7", "14", "28", "55", "56", "68"}
 	var cuts []cut
 	for k := 0; k < 10; k++ {
 		c := cut{}
